@@ -26,7 +26,7 @@ func cexModel(o *Obligation, work string, seed int) (map[string]string, string) 
 		}
 		kept = append(kept, l)
 	}
-	r := runSMT(work, o.Name+".cex", strings.Join(kept, "\n"), 10, seed, []string{"z3-new", "z3"})
+	r := runSMT(work, o.Name+".cex", strings.Join(kept, "\n"), 10, seed, []string{"z3-new"})
 	if r.Status == "sat" {
 		return parseModel(r.Output), "candidate model of the quantifier-free relaxation (" + r.Solver + ")"
 	}
@@ -41,7 +41,7 @@ func evalTerms(o *Obligation, work string, seed int, terms []string) map[string]
 	}
 	post := "(get-value (" + strings.Join(terms, " ") + "))"
 	try := func(q string) map[string]string {
-		r := runSMTPost(work, o.Name+".val", q, post, 10, seed, []string{"z3-new", "z3"})
+		r := runSMTPost(work, o.Name+".val", q, post, 10, seed, []string{"z3-new"})
 		if r.Status != "sat" {
 			return nil
 		}
